@@ -181,6 +181,13 @@ func (s *SelectStmt) ValidateFields(ctx *CheckCtx) error {
 			return err
 		}
 	}
+	// The types recorded while parsing were computed before the field names
+	// were resolved (a + 'x' is a number as long as a is just a name)
+	for i, f := range s.Fields {
+		if i < len(s.FieldTypes) {
+			s.FieldTypes[i] = f.ReturnType()
+		}
+	}
 	return nil
 }
 
